@@ -339,6 +339,6 @@ def replay(doc):
 
 
 def jobs(tier, seed):
-    n, shards = (8000, 8) if tier == "quick" else (100000, 16)
+    n, shards = (8000, 8) if tier == "quick" else (400000, 16)
     return [{"name": "hist-%d" % k, "kind": "hist", "n": n // shards, "seed": seed * 1000 + 700 + k,
              "shrink": 400 if tier == "quick" else 2000} for k in range(shards)]
